@@ -107,6 +107,22 @@ def replay_known(ctx, binp):
             ctx.violation("delete-races-getchannel-resurrects", "delete_races_getchannel: " +
                           " ".join("%s=%s" % x for x in sorted(kv.items())),
                           sched + "# observed: " + " ".join("%s=%s" % x for x in sorted(kv.items())) + "\n")
+    for name in ("ephemeral_topic_two_last_deletes", "ephemeral_topic_delete_races_create", "ephemeral_topic_concurrent_leave"):
+        rc, kv, out = run_sched(ctx, binp, name, timeout=90)
+        res[name] = kv or {"error": out[-300:]}
+        sched = open(os.path.join(ROOT, "corpus", "C08", name + ".sched")).read()
+        if not kv:
+            if rc == -9 or "test timed out" in out:
+                ctx.violation("daemon-hangs:" + name, "%s did not finish" % name, sched)
+            else:
+                ctx.broken_ties.append("replay %s did not run (rc=%s)" % (name, rc))
+            continue
+        ctx.evaluations += int(kv.get("rounds", "1"))
+        ctx.count_case("sched:" + name, nontrivial=True)
+        if kv.get("wrong") == "true":
+            ctx.violation("ephemeral-topic-autodelete:" + name.replace("ephemeral_topic_", ""), "%s: %s" % (
+                name, " ".join("%s=%s" % x for x in sorted(kv.items()))),
+                sched + "# observed: " + " ".join("%s=%s" % x for x in sorted(kv.items())) + "\n")
     rc, kv, out = run_sched(ctx, binp, "empty_races_delivery")
     res["empty_races_delivery"] = kv or {"error": out[-300:]}
     if not kv:
